@@ -460,6 +460,10 @@ theorem avg_refines (e : Expr) (vs : List Value) (r : Value) (h : aggregate (.av
 
 /-! ### STDDEV / VARIANCE -/
 
+/-- the model's STDDEV / VARIANCE formula (`GroupAggregator::StandardDeviation`) is the specification's population
+variance / its square root -/
+theorem stddevCalc_eq_spread (n : Int) (isVar : Bool) (s q : Nat) : stddevCalc n isVar s q = Spec.Agg.spread n isVar s q := rfl
+
 /-- squares and the published value for an argument type STDDEV accepts (INT, REAL) -/
 structure SqLike {α : Type} (inj : α → Value) (sq : α → α) (okSq : α → Bool) (toF : α → Nat) : Prop where
   square : ∀ y, squareOf (inj y) = if okSq y then .ok (inj (sq y)) else .error .undefinedOperation
